@@ -370,14 +370,14 @@ class _Argon2Common(  # type: ignore[misc]
         ^
         \$argon2(?P<type>[a-z]+)\$
         (?:
-            v=(?P<version>\d+)
+            v=(?P<version>0|[1-9]\d*)
             \$
         )?
-        m=(?P<memory_cost>\d+)
+        m=(?P<memory_cost>0|[1-9]\d*)
         ,
-        t=(?P<time_cost>\d+)
+        t=(?P<time_cost>0|[1-9]\d*)
         ,
-        p=(?P<parallelism>\d+)
+        p=(?P<parallelism>0|[1-9]\d*)
         (?:
             ,keyid=(?P<keyid>[^,$]+)
         )?
